@@ -32,7 +32,7 @@ SHARDS = 16
 REACH = {
     "quick": {"schemas": 2000, "values_checked": 20000, "count_checks": 8000, "logical_schemas": 300,
               "reference_schemas": 500, "parsed_schema_inputs": 800,
-              "extreme_values_checked": 5000, "extreme_draws": 20000, "edited_in_place_checked": 500},
+              "extreme_values_checked": 5000, "extreme_draws": 20000, "edited_in_place_checked": 500, "interleaved_generators": 500},
     "thorough": {"schemas": 60000},
 }
 
@@ -157,6 +157,36 @@ def one_schema(sh, fa, rng, js, feats):
         if st == "exc":
             return ("value-not-readable", "schemaless_reader raised %s on a written generated value %s (draws at the ends of their ranges)" % (exc_name(back), printable(v, 120)), dict(info, extreme=True, value=v))
         sh.count("extreme_values_checked")
+    # ---- two generators alive at once over schemas that give the same names to different types:
+    # each keeps following its own schema
+    if isinstance(js, (dict, list)) and "recursive" not in feats:
+        from .c17 import collide
+        js_b = collide(js, random.Random(rng.getrandbits(30)))
+        try:
+            node_b, _eb = RS.build(js_b)
+        except Exception:
+            node_b = None
+        if node_b is not None and js_b != js:
+            def interleaved():
+                ga, gb = generate_many(copy.deepcopy(js), 4), generate_many(copy.deepcopy(js_b), 4)
+                out_a, out_b = [], []
+                for _ in range(4):
+                    out_a.append(next(ga))
+                    out_b.append(next(gb))
+                return out_a, out_b
+            st, res = guard(interleaved)
+            if st == "exc":
+                return ("generate-raised", "two generators advanced in turn (schemas sharing type names): %s" % exc_name(res), dict(info, other_schema=js_b))
+            for nm, nd, vals2 in (("first", node, res[0]), ("second", node_b, res[1])):
+                for v in vals2:
+                    try:
+                        fits = RC.conforms(nd, v) or RC.conforms(nd, v, loose=True)
+                    except RecursionError:
+                        fits = True
+                    if not fits:
+                        return ("value-does-not-conform", "two generators advanced in turn: a value of the %s, %s, does not conform to its own schema" % (nm, printable(v, 200)),
+                                dict(info, other_schema=js_b, value=v))
+            sh.count("interleaved_generators")
     # ---- the caller's schema object edited in place between two calls: the second call follows the new content
     if not parsed_input and isinstance(arg, dict):
         js2 = {"type": "record", "name": "VfEdited", "fields": [{"name": "a", "type": "long"}, {"name": "b", "type": ["null", "string"]},
